@@ -171,7 +171,8 @@ fn prune(repo: &RepoOpen, r: &mut SplitMix, log: &mut Vec<String>) -> Result<()>
 }
 
 /// scenario 0: random history; 1: equal-layout flat trees (root-only tree packs); 2: nested fixed trees;
-/// 3: random history + a backup made with a stale index (duplicate blobs in two packs)
+/// 3: random history + a backup made with a stale index (duplicate blobs in two packs);
+/// 4: forget + marking prune with repack (needed blobs also in packs_to_delete); 5: disjoint backups, first forgotten, no prune
 fn build_history(seed: u64, scenario: u64, steps: usize, datapack: u32, treepack: u32, work: &Path) -> Result<Hist> {
     let mut r = SplitMix(seed ^ 0xC05);
     let store = Arc::new(Store::default());
@@ -192,6 +193,72 @@ fn build_history(seed: u64, scenario: u64, steps: usize, datapack: u32, treepack
                 nsnap += 1;
                 log.push("backup".into());
             }
+        }
+        4 => {
+            // backup {keep.., drop..}; backup {keep..}; forget the first; prune WITHOUT instant delete and with the
+            // default keep-delete: the partly used packs are repacked and the old ones only MARKED
+            // (packs_to_delete), so the kept blobs live in a new pack and, as a copy, in a marked pack
+            let nk = 1 + r.below(2) as usize;
+            let nd = 1 + r.below(2) as usize;
+            let mut e = Vec::new();
+            for i in 0..nk + nd {
+                let name = if i < nk { format!("keep{i}") } else { format!("drop{i}") };
+                e.push(Entry { path: name.into(), kind: Kind::File(Content::Random { seed: r.next(), len: 1500 + r.below(3000) as usize }), mode: 0o644, mtime: (1_600_000_000, 0) });
+            }
+            if steps > 3 {
+                e.push(Entry { path: "d".into(), kind: Kind::Dir, mode: 0o755, mtime: (1_600_000_000, 0) });
+                e.push(Entry { path: "d/inner".into(), kind: Kind::File(Content::Random { seed: r.next(), len: 2000 }), mode: 0o644, mtime: (1_600_000_000, 0) });
+            }
+            rewrite_dir(&src, &e)?;
+            let (rp, s1) = backup_dir(repo, &src, "src", None)?;
+            repo = rp;
+            e.retain(|x| !x.path.to_string_lossy().starts_with("drop"));
+            rewrite_dir(&src, &e)?;
+            let (rp, _s2) = backup_dir(repo, &src, "src", None)?;
+            repo = rp;
+            repo.delete_snapshots(&[s1.id])?;
+            let mut o = PruneOptions::default(); // keep_delete 23h, instant_delete false
+            o.max_unused = LimitOption::Percentage(0);
+            o.max_repack = LimitOption::Unlimited;
+            o.repack_cacheable_only = Some(false);
+            let plan = repo.prune_plan(&o)?;
+            repo.prune(&o, plan)?;
+            log.extend(["backup".to_string(), "backup".into(), "forget".into(), "prune(marking,keep-delete=23h,max_unused=0)".into()]);
+            if steps > 4 {
+                e.push(Entry { path: "later".into(), kind: Kind::File(Content::Random { seed: r.next(), len: 2500 }), mode: 0o644, mtime: (1_600_000_100, 0) });
+                rewrite_dir(&src, &e)?;
+                let (rp, _s3) = backup_dir(repo, &src, "src", None)?;
+                repo = rp;
+                log.push("backup".into());
+            }
+        }
+        5 => {
+            // backup A; backup B (disjoint data); forget A; no prune: the index file of the first
+            // backup lists nothing the remaining snapshot needs
+            let mk = |r: &mut SplitMix, tag: &str, n: usize| -> Vec<Entry> {
+                let mut v = vec![Entry { path: format!("{tag}dir").into(), kind: Kind::Dir, mode: 0o755, mtime: (1_600_000_000, 7) }];
+                for i in 0..n {
+                    let p: PathBuf = if i % 2 == 0 { format!("{tag}{i}").into() } else { format!("{tag}dir/{tag}{i}").into() };
+                    v.push(Entry { path: p, kind: Kind::File(Content::Random { seed: r.next(), len: 1000 + r.below(4000) as usize }), mode: 0o644, mtime: (1_600_000_000, 0) });
+                }
+                v
+            };
+            let na = 2 + r.below(2) as usize;
+            let a = mk(&mut r, "a", na);
+            rewrite_dir(&src, &a)?;
+            let (rp, s1) = backup_dir(repo, &src, "src", None)?;
+            repo = rp;
+            for k in 0..steps.saturating_sub(2).max(1) {
+                let nb = 2 + r.below(2) as usize;
+                let b = mk(&mut r, &format!("b{k}"), nb);
+                rewrite_dir(&src, &b)?;
+                let (rp, _s) = backup_dir(repo, &src, "src", None)?;
+                repo = rp;
+                log.push("backup".into());
+            }
+            repo.delete_snapshots(&[s1.id])?;
+            log.insert(0, "backup".into());
+            log.push("forget-first".into());
         }
         _ => {
             let mut entries = gen_tree(&mut r, &tp);
@@ -254,10 +321,10 @@ enum Fault {
     /// overwrite the file's content with a sibling's (the sibling stays)
     Replace(Id, &'static str),
     /// index file edits: (pack position, blob position)
-    IdxDupBlob(usize, usize),
-    IdxDropBlob(usize, usize),
-    IdxDupPack(usize),
-    IdxDropPack(usize),
+    IdxDupBlob(usize, usize, &'static str),
+    IdxDropBlob(usize, usize, &'static str),
+    IdxDupPack(usize, &'static str),
+    IdxDropPack(usize, &'static str),
 }
 impl Fault {
     fn kind(&self) -> &'static str {
@@ -279,8 +346,9 @@ impl Fault {
             Self::Truncate(n, c) => format!("{c}@{n}"),
             Self::Flip(n, c) => format!("{c}@{n}"),
             Self::Swap(id, c) | Self::Replace(id, c) => format!("{c}:{}", &id.to_hex().as_str()[..8]),
-            Self::IdxDupBlob(p, b) | Self::IdxDropBlob(p, b) => format!("p{p}b{b}"),
-            Self::IdxDupPack(p) | Self::IdxDropPack(p) => format!("p{p}"),
+            // section = live|marked x data|tree listing of the index file
+            Self::IdxDupBlob(p, b, c) | Self::IdxDropBlob(p, b, c) => format!("{c}:p{p}b{b}"),
+            Self::IdxDupPack(p, c) | Self::IdxDropPack(p, c) => format!("{c}:p{p}"),
         }
     }
 }
@@ -289,7 +357,10 @@ impl Fault {
 struct Layout {
     /// pack id -> (is tree pack, blobs (offset, length) sorted, referenced only by snapshot roots, unreferenced)
     packs: BTreeMap<Id, PackInfo>,
-    index: BTreeMap<Id, Vec<usize>>, // index file -> number of blobs per pack entry
+    /// index file -> per pack entry (packs then packs_to_delete): (number of blobs, marked, tree pack)
+    index: BTreeMap<Id, Vec<(usize, bool, bool)>>,
+    /// index file -> needed | unneeded | marked-only
+    index_class: BTreeMap<Id, &'static str>,
 }
 #[derive(Clone, Debug, Default)]
 struct PackInfo {
@@ -382,15 +453,29 @@ fn faults_for(tpe: FileType, id: &Id, len: usize, all: &BTreeMap<Key, Bytes>, la
     if tpe == FileType::Index {
         if let Some(packs) = lay.index.get(id) {
             let np = packs.len();
-            let pp: BTreeSet<usize> = [0, np / 2, np.saturating_sub(1)].into_iter().filter(|i| *i < np).collect();
+            let sec = |e: &(usize, bool, bool)| match (e.1, e.2) {
+                (false, false) => "live-data",
+                (false, true) => "live-tree",
+                (true, false) => "marked-data",
+                (true, true) => "marked-tree",
+            };
+            // every pack entry of a small index file; of a large one first / middle / last and the
+            // first entry of each section (unmarked and marked listing, data and tree packs)
+            let mut pp: BTreeSet<usize> = if np <= 12 { (0..np).collect() } else { [0, np / 2, np - 1].into_iter().collect() };
+            for s in ["live-data", "live-tree", "marked-data", "marked-tree"] {
+                if let Some(i) = packs.iter().position(|e| sec(e) == s) {
+                    let _ = pp.insert(i);
+                }
+            }
             for p in pp {
-                f.push(Fault::IdxDupPack(p));
-                f.push(Fault::IdxDropPack(p));
-                let nb = packs[p];
+                let c = sec(&packs[p]);
+                f.push(Fault::IdxDupPack(p, c));
+                f.push(Fault::IdxDropPack(p, c));
+                let nb = packs[p].0;
                 let bb: BTreeSet<usize> = [0, nb / 2, nb.saturating_sub(1)].into_iter().filter(|i| *i < nb).collect();
                 for b in bb {
-                    f.push(Fault::IdxDupBlob(p, b));
-                    f.push(Fault::IdxDropBlob(p, b));
+                    f.push(Fault::IdxDupBlob(p, b, c));
+                    f.push(Fault::IdxDropBlob(p, b, c));
                 }
             }
         }
@@ -430,21 +515,21 @@ fn apply_fault(m: &mut BTreeMap<Key, Bytes>, key: &MasterKey, tpe: FileType, id:
             let mut ix: IndexFile = repo.get_file(&rustic_core::repofile::IndexId::from(*id))?;
             let npk = ix.packs.len();
             match f {
-                Fault::IdxDupBlob(p, b) => {
+                Fault::IdxDupBlob(p, b, _) => {
                     let (list, p) = if *p < npk { (&mut ix.packs, *p) } else { (&mut ix.packs_to_delete, *p - npk) };
                     let e = list[p].blobs[*b];
                     list[p].blobs.push(e);
                 }
-                Fault::IdxDropBlob(p, b) => {
+                Fault::IdxDropBlob(p, b, _) => {
                     let (list, p) = if *p < npk { (&mut ix.packs, *p) } else { (&mut ix.packs_to_delete, *p - npk) };
                     let _ = list[p].blobs.remove(*b);
                 }
-                Fault::IdxDupPack(p) => {
+                Fault::IdxDupPack(p, _) => {
                     let (list, p) = if *p < npk { (&mut ix.packs, *p) } else { (&mut ix.packs_to_delete, *p - npk) };
                     let e = list[p].clone();
                     list.push(e);
                 }
-                Fault::IdxDropPack(p) => {
+                Fault::IdxDropPack(p, _) => {
                     let (list, p) = if *p < npk { (&mut ix.packs, *p) } else { (&mut ix.packs_to_delete, *p - npk) };
                     let _ = list.remove(p);
                 }
@@ -467,9 +552,15 @@ fn quiet<T>(f: impl FnOnce() -> T) -> std::thread::Result<T> {
 
 /// (verdict, error kinds): verdict = clean | errors | failed (check returned Err) | panic
 fn run_check(store: Arc<Store>, key: &MasterKey) -> (String, Vec<String>) {
+    run_check_opts(store, key, CheckOptions::default().read_data(true))
+}
+
+/// "reports no error" is the property's notion: `CheckResults::is_ok()` (findings of level Error;
+/// warnings do not count), a check that returns Err or panics counts as reporting.
+fn run_check_opts(store: Arc<Store>, key: &MasterKey, opts: CheckOptions) -> (String, Vec<String>) {
     let r = quiet(|| -> Result<(bool, Vec<String>)> {
         let repo = open_repo(store, None, key, &repo_opts())?;
-        let res = repo.check(CheckOptions::default().read_data(true))?;
+        let res = repo.check(opts)?;
         let mut kinds = BTreeSet::new();
         for (lvl, e) in &res.0 {
             let d = format!("{e:?}");
@@ -503,20 +594,28 @@ fn run_restore(store: Arc<Store>, key: &MasterKey, snap: &str, dest: &Path) -> S
 fn layout(store: &Arc<Store>, key: &MasterKey) -> Result<(Layout, Vec<SnapshotFile>)> {
     let repo = open_repo(store.clone(), None, key, &repo_opts())?;
     let snaps = repo.get_all_snapshots()?;
-    let mut lay = Layout { packs: BTreeMap::new(), index: BTreeMap::new() };
+    let mut lay = Layout { packs: BTreeMap::new(), index: BTreeMap::new(), index_class: BTreeMap::new() };
+    let mut live_of: BTreeMap<Id, Vec<Id>> = BTreeMap::new();
     let mut blob_pack: BTreeMap<(bool, Id), Id> = BTreeMap::new();
     for (iid, _) in store.list_with_size(FileType::Index)? {
         let ix: IndexFile = repo.get_file(&rustic_core::repofile::IndexId::from(iid))?;
         let mut counts = Vec::new();
-        for p in ix.packs.iter().chain(ix.packs_to_delete.iter()) {
-            counts.push(p.blobs.len());
+        for (k, p) in ix.packs.iter().chain(ix.packs_to_delete.iter()).enumerate() {
+            let marked = k >= ix.packs.len();
             let mut fb: Vec<hook::FlatBlob> = p.blobs.iter().map(hook::flat).collect();
             fb.sort_by_key(|b| b.offset);
             let tree = fb.first().is_some_and(|b| b.tree);
-            for b in &fb {
-                let _ = blob_pack.insert((b.tree, b.id), *p.id);
+            counts.push((p.blobs.len(), marked, tree));
+            if !marked {
+                // only the unmarked listing is what backup/restore look blobs up in
+                for b in &fb {
+                    let _ = blob_pack.insert((b.tree, b.id), *p.id);
+                }
+                live_of.entry(iid).or_default().push(*p.id);
             }
-            let _ = lay.packs.insert(*p.id, PackInfo { tree, blobs: fb.iter().map(|b| (b.offset, b.length)).collect(), class: "unreferenced" });
+            if !marked || !lay.packs.contains_key(&*p.id) {
+                let _ = lay.packs.insert(*p.id, PackInfo { tree, blobs: fb.iter().map(|b| (b.offset, b.length)).collect(), class: if marked { "marked" } else { "unreferenced" } });
+            }
         }
         let _ = lay.index.insert(iid, counts);
     }
@@ -548,12 +647,24 @@ fn layout(store: &Arc<Store>, key: &MasterKey) -> Result<(Layout, Vec<SnapshotFi
             }
         }
     }
+    for iid in lay.index.keys() {
+        let live = live_of.get(iid).cloned().unwrap_or_default();
+        let cls = if live.is_empty() {
+            "marked-only"
+        } else if live.iter().any(|p| lay.packs.get(p).is_some_and(|pi| pi.class == "referenced" || pi.class == "root-only")) {
+            "needed"
+        } else {
+            "unneeded"
+        };
+        let _ = lay.index_class.insert(*iid, cls);
+    }
     Ok((lay, snaps))
 }
 
 fn describe(tpe: FileType, id: &Id, lay: &Layout) -> String {
     match tpe {
         FileType::Pack => lay.packs.get(id).map_or("pack:unindexed".to_string(), |p| format!("pack:{}:{}", if p.tree { "tree" } else { "data" }, p.class)),
+        FileType::Index => format!("index:{}", lay.index_class.get(id).copied().unwrap_or("?")),
         t => t.dirname().to_string(),
     }
 }
@@ -682,7 +793,28 @@ fn run_history(line: &str, out: &mut impl std::io::Write) -> Result<()> {
                 bad.push(format!("{}:differs({})", &s[..8], d.len()));
             }
         }
-        writeln!(out, "F {}/{}/{}/{} file={} check={verdict} kinds={} restored={nrest} restore={}", tpe.dirname(), &id.to_hex().as_str()[..8], f.kind(), f.detail(),
+        // a full read may be performed as the documented cycle IdSubSet((1,m)) .. IdSubSet((m,m)):
+        // when the plain full check reports the damage and restore fails, some run of every cycle must report it
+        let mut cycle = "-".to_string();
+        let in_blob = matches!(&f, Fault::Flip(_, c) if c.starts_with("blob-")) || matches!(&f, Fault::Replace(_, c) if *c != "next");
+        if tpe == FileType::Pack && in_blob && verdict != "clean" && !bad.is_empty() {
+            let mut missed = Vec::new();
+            for m in 1u32..=3 {
+                let mut reported = false;
+                for n in 1..=m {
+                    let o = CheckOptions::default().read_data(true).read_data_subset(rustic_core::ReadSubsetOption::IdSubSet((n, m)));
+                    if run_check_opts(st.clone(), &h.key, o).0 != "clean" {
+                        reported = true;
+                        break;
+                    }
+                }
+                if !reported {
+                    missed.push(m.to_string());
+                }
+            }
+            cycle = if missed.is_empty() { "ok".to_string() } else { format!("missed:{}", missed.join("+")) };
+        }
+        writeln!(out, "F {}/{}/{}/{} file={} check={verdict} kinds={} restored={nrest} restore={} cycle={cycle}", tpe.dirname(), &id.to_hex().as_str()[..8], f.kind(), f.detail(),
             describe(tpe, &id, &lay), if kinds.is_empty() { "-".to_string() } else { kinds.join("+") }, if bad.is_empty() { "ok".to_string() } else { bad.join("+") })?;
         if dump {
             match quiet(|| dump_state(&st, &h.key)) {
@@ -721,13 +853,14 @@ fn dump_state(store: &Arc<Store>, key: &MasterKey) -> Result<String> {
     let repo = open_repo(store.clone(), None, key, &repo_opts())?;
     let mut nm = Names { ids: BTreeMap::new() };
     let mut o: Vec<String> = Vec::new();
-    let mut meta_ok = true;
+    let mut meta_ok = true; // every snapshot file decrypts and parses
+    let mut index_ok = true; // every index file decrypts and parses
     // index files
     let mut ixs: Vec<IndexFile> = Vec::new();
     for (iid, _) in store.list_with_size(FileType::Index)? {
         match repo.get_file::<IndexFile>(&rustic_core::repofile::IndexId::from(iid)) {
             Ok(ix) => ixs.push(ix),
-            Err(_) => meta_ok = false,
+            Err(_) => index_ok = false,
         }
     }
     let mut roots = Vec::new();
@@ -791,6 +924,7 @@ fn dump_state(store: &Arc<Store>, key: &MasterKey) -> Result<String> {
     let fb_str = |nm: &mut Names, b: &hook::FlatBlob| format!("{} {} {} {} {}", u8::from(b.tree), nm.n(&b.id), b.offset, b.length, b.ulen.map_or("0".to_string(), |u| format!("1 {u}")));
     let packs = store.list_with_size(FileType::Pack)?;
     o.push(u8::from(meta_ok).to_string());
+    o.push(u8::from(index_ok).to_string());
     o.push(u8::from(snap_names_ok).to_string());
     o.push(packs.len().to_string());
     for (pid, size) in &packs {
